@@ -17,7 +17,7 @@ RULES = {
           "read_from_file delete the receiver's own override cell (AttributeError tolerated) and do not store to it; only the "
           "class that defines _default_render_method in its own body may store that default (guard: '_default_render_method' in vars(cls))",
     "R2": "set writes exactly the receiver's own cell, after validation, on every non-raising path (no early return, no delete, "
-          "no store through type(self)/a base)",
+          "no store through type(self)/a base); the settings are stored only by their own accessors and set_render_method (who-may-write)",
     "R3": "getters follow the MRO: getattr(self, '_jpeg_quality', -1), getattr(self, '_read_from_file', True), self._render_method; "
           "at render time the effective method is `(method or self._render_method).lower()` (per-call override first, "
           "case-normalised as a whole) in every graphics renderer; shared with C09.R5: ImageIterator never rebinds the style arguments frames are rendered with",
@@ -315,5 +315,6 @@ MUTANTS = [
     M("store-before-validate", IT, "ITerm2ImageMeta.jpeg_quality",
       "        if not isinstance(quality, int):", "        self._jpeg_quality = quality\n        if not isinstance(quality, int):", {"R2"}),
     M("image-truth-value", CM, "BaseImage.__del__", "    def __del__(self) -> None:\n", "    def __bool__(self) -> bool:\n        return not getattr(self, \"_closed\", True)\n\n    def __del__(self) -> None:\n", {"R6"}),
+    M("library-writes-setting", IT, "ITerm2Image._display_animated", "        super()._display_animated(img, alpha, fmt, *args, mix=True, **kwargs)\n", "        self.jpeg_quality = self.jpeg_quality\n        super()._display_animated(img, alpha, fmt, *args, mix=True, **kwargs)\n", {"R2"}),
     M("twin-dict-guard", CM, "BaseImage.set_render_method", "in vars(cls):", "in cls.__dict__:", twin=True),
 ]
